@@ -59,6 +59,10 @@ pub enum Item {
     /// `#if true { #include "…" }` — an inclusion inside a conditional block
     IfInclude(String),
     IncFn { kind: IncKind, spelling: String, start: Option<usize>, len: Option<usize>, via: Via },
+    /// a comment line holding bytes that are not valid UTF-8 (a Latin-1
+    /// letter, 0xFF, a lone continuation byte): source text is read lossily,
+    /// a comment is a comment
+    OddComment(u8),
     /// a label declaration (global `g<id>:` or local `.l<id>:`): two splices
     /// of one file are two declarations, each under the global label that
     /// precedes its own splice point
@@ -144,6 +148,7 @@ impl Case {
                     Item::Marker(b) => t.push_str(&format!("#d8 {}\n", b)),
                     Item::Include(sp) => t.push_str(&format!("#include \"{}\"\n", esc(sp))),
                     Item::IfInclude(sp) => t.push_str(&format!("#if true\n{{\n    #include \"{}\"\n}}\n", esc(sp))),
+                    Item::OddComment(k) => t.push_str(&format!("; caf{} au lait\n", ['\u{e000}', '\u{e001}', '\u{e002}', '\u{e003}'][(*k % 4) as usize])),
                     Item::Label { local, id } => t.push_str(&if *local { format!(".l{}:\n", id) } else { format!("g{}:\n", id) }),
                     Item::IncFn { kind, spelling, start, len, via } => {
                         let fname = match kind {
@@ -221,7 +226,21 @@ impl Case {
             if Some(&p) == self.defs_path.as_ref() {
                 text.push_str(&defs);
             }
-            disk.add_file(&p, text.into_bytes());
+            // the private-use placeholders of OddComment become raw bytes
+            let mut bytes: Vec<u8> = Vec::with_capacity(text.len());
+            for ch in text.chars() {
+                match ch {
+                    '\u{e000}' => bytes.push(0xE9),
+                    '\u{e001}' => bytes.push(0xFF),
+                    '\u{e002}' => bytes.push(0x80),
+                    '\u{e003}' => bytes.extend_from_slice(&[0xC3, 0x28]),
+                    c => {
+                        let mut b = [0u8; 4];
+                        bytes.extend_from_slice(c.encode_utf8(&mut b).as_bytes());
+                    }
+                }
+            }
+            disk.add_file(&p, bytes);
         }
         let mut spec = Spec::default();
         spec.roots = self.roots.clone();
@@ -426,7 +445,13 @@ pub fn draw_case(rng: &mut Rng) -> Case {
                     // a sign is not a digit
                     s.insert(0, *rng.pick(&['+', '-']));
                 }
-                s.into_bytes()
+                let mut b = s.into_bytes();
+                if rng.chance(1, 12) && b.len() >= 2 {
+                    // a byte that is not text at all, in the middle: not a digit
+                    let at = b.len() / 2;
+                    b.insert(at, *rng.pick(&[0xFFu8, 0x80, 0xE9]));
+                }
+                b
             }
             _ => {
                 let mut s = String::new();
@@ -436,7 +461,12 @@ pub fn draw_case(rng: &mut Rng) -> Case {
                         s.push(' ');
                     }
                 }
-                s.into_bytes()
+                let mut b = s.into_bytes();
+                if rng.chance(1, 12) && b.len() >= 2 {
+                    let at = b.len() / 2;
+                    b.insert(at, *rng.pick(&[0xFFu8, 0x80, 0xE9]));
+                }
+                b
             }
         };
         data.push(DataFile { path: format!("{}{}.{}", dir, ["data", "blob", "tab"][j], ["bin", "bits", "hex"][kind]), content });
@@ -474,6 +504,9 @@ pub fn draw_case(rng: &mut Rng) -> Case {
         for _ in 0..nitems {
             match rng.below(10) {
                 0..=2 => {
+                    if rng.chance(1, 12) {
+                        items.push(Item::OddComment(rng.below(4) as u8));
+                    }
                     if rng.chance(1, 5) {
                         // a label: global in the including files mostly,
                         // local in the included ones
